@@ -489,7 +489,7 @@ func (q *queryChecker) Check(qu Query) {
 		}
 		if p.MaxRequestTimeout != c.MaxTimeout || p.MinDepositMultiple != c.Multiple || gotMin != minDep || !p.ServiceFeeTax.Equal(decOf(c.Tax)) ||
 			!p.SlashFraction.Equal(decOf(c.Slash)) || int64(p.ComplaintRetrospect) != c.ComplaintNs || int64(p.ArbitrationTimeLimit) != c.ArbitrationNs ||
-			p.BaseDenom != "stake" {
+			p.BaseDenom != c.baseDenom() {
 			q.fail(qu.Kind, "gRPC params %v differ from the parameters in force %+v", p, c)
 		}
 		lbz, lerr := q.legacy(types.QueryParameters, nil)
